@@ -272,3 +272,71 @@ def rule_SQ4(ctx, tier):
             rr.fail("breach-queries-disagree", "batch_check_locators_exist (%s) and load_uuids (%s) do not range over the same rows: a locator reported as breached can yield no appointment to respond to" % (a, c))
     rr.require_floor(12, "SQ4 instances")
     return rr
+
+
+# which DBM method may write which table (confirmed by reading; one owner set per (table, statement kind))
+WRITE_OWNERS = {
+    "tower": {
+        ("users", "insert"): {"store_user"}, ("users", "update"): {"update_user", "batch_remove_appointments"}, ("users", "delete"): {"batch_remove_users"},
+        ("appointments", "insert"): {"store_appointment"}, ("appointments", "update"): {"update_appointment"}, ("appointments", "delete"): {"remove_appointment", "batch_remove_appointments"},
+        ("trackers", "insert"): {"store_tracker"}, ("trackers", "update"): {"update_tracker_status"},
+        ("last_known_block", "insert"): {"store_last_known_block"}, ("keys", "insert"): {"store_tower_key"},
+    },
+    "client": {
+        ("towers", "insert"): {"store_tower_record"}, ("towers", "update"): {"store_appointment_receipt"}, ("towers", "delete"): {"remove_tower_record"},
+        ("appointments", "insert"): {"store_appointment"}, ("appointments", "delete"): {"delete_pending_appointment"},
+        ("pending_appointments", "insert"): {"store_pending_appointment"}, ("pending_appointments", "delete"): {"delete_pending_appointment"},
+        ("invalid_appointments", "insert"): {"store_invalid_appointment"},
+        ("registration_receipts", "insert"): {"store_tower_record"},
+        ("appointment_receipts", "insert"): {"store_appointment_receipt", "store_misbehaving_proof"},
+        ("misbehaving_proofs", "insert"): {"store_misbehaving_proof"}, ("keys", "insert"): {"store_client_key"},
+    },
+}
+
+
+def rule_SQ5(ctx, tier, which=None):
+    rr = RuleResult("SQ5" + ({"tower": "t", "client": "c"}.get(which, "")), "table write ownership: each table is written only by the DBM methods that own it; shared rows are deleted only through the reference-counting path")
+    P = ctx.prog
+    for side, prefix in (("tower", TDBM), ("client", PDBM)):
+        if which and which != side:
+            continue
+        seen = {}
+        for bid, b in P.bodies.items():
+            if not bid.startswith(prefix):
+                continue
+            meth = bid[len(prefix):].split("::")[0]
+            for bb, st in sql.body_sql(b):
+                c = sql.classify(st)
+                if c["kind"] in ("insert", "update", "delete") and c.get("table"):
+                    seen.setdefault((c["table"], c["kind"]), set()).add(meth)
+        owners = WRITE_OWNERS[side]
+        for key, meths in sorted(seen.items()):
+            al = owners.get(key)
+            extra = meths - (al or set())
+            if al is None:
+                rr.fail("%s:unowned-write:%s.%s:%s" % (side, key[0], key[1], ",".join(sorted(meths))), "%s DBM: `%s` now performs %s on table `%s`, which no method was confirmed to write this way" % (side, sorted(meths), key[1].upper(), key[0]))
+            elif extra:
+                rr.fail("%s:foreign-table-writer:%s.%s:%s" % (side, key[0], key[1], ",".join(sorted(extra))), "%s DBM: `%s` performs %s on table `%s`; only %s may — rows of `%s` are shared / mirrored elsewhere and this write bypasses that bookkeeping" % (side, sorted(extra), key[1].upper(), key[0], sorted(al), key[0]))
+            else:
+                rr.ok("%s: %s %s by %s" % (side, key[1], key[0], sorted(meths)), sample={"rule": "SQ5", "side": side, "table": key[0], "statement": key[1], "writers": sorted(meths)})
+        for key in owners:
+            if key not in seen:
+                rr.fail("%s:missing-writer:%s.%s" % (side, key[0], key[1]), "%s DBM: nobody performs %s on `%s` any more" % (side, key[1].upper(), key[0]))
+    if which in (None, "client"):
+        # reference counting of shared appointment bodies counts BOTH kinds of link
+        d = P.require(PDBM + "delete_pending_appointment")
+        counted = sorted({sql.select_shape(st)["tables"][0] for bb, st in sql.body_sql(d) if sql.classify(st)["kind"] == "select" and "COUNT" in st.upper() and sql.select_shape(st)["tables"]})
+        if counted == ["invalid_appointments", "pending_appointments"]:
+            rr.ok("shared appointment body deleted only when pending + invalid references == 1", sample={"rule": "SQ5", "reference count over": counted})
+        else:
+            rr.fail("client:refcount-tables:%s" % ",".join(counted), "delete_pending_appointment counts references over %s; both pending_appointments and invalid_appointments hold links to the shared body" % counted, where=d.span)
+    rr.require_floor({None: 23, "tower": 10, "client": 13}[which], "SQ5 instances")
+    return rr
+
+
+def rule_SQ5_tower(ctx, tier):
+    return rule_SQ5(ctx, tier, "tower")
+
+
+def rule_SQ5_client(ctx, tier):
+    return rule_SQ5(ctx, tier, "client")
